@@ -462,8 +462,15 @@ func (g *Gen) Wrapper(kid *R, depth int) *R {
 	case 28:
 		return &R{Op: "pkgstack", Kids: k1}
 	case 29:
+		if g.r.chance(10) {
+			// what os.Open("") returns
+			return &R{Op: "patherror", Kids: k1, S: []string{"open", ""}}
+		}
 		return &R{Op: "patherror", Kids: k1, S: []string{"open", "/tmp/" + g.pathWord()}}
 	case 30:
+		if g.r.chance(10) {
+			return &R{Op: "linkerror", Kids: k1, S: []string{"link", "", "/b/" + g.pathWord()}}
+		}
 		return &R{Op: "linkerror", Kids: k1, S: []string{"link", "/a/" + g.pathWord(), "/b/" + g.pathWord()}}
 	case 31:
 		return &R{Op: "syscallerror", Kids: k1, S: []string{"read"}}
